@@ -69,7 +69,7 @@ func HarnessC17Forward() {
 	kind := vrt.Int("kind", 0, 3) // 0 valid envelope via Publisher, 1 not an envelope, 2 envelope with empty destination, 3 a valid envelope followed by more data
 	ack := vrt.Bool("ackWhenCannotUnwrap")
 	dest := &fwdPublisher{fail: vrt.Bool("dest.fails")}
-	f := &Forwarder{publisher: dest, logger: watermill.NopLogger{}, config: Config{AckWhenCannotUnwrap: ack}}
+	f := &Forwarder{publisher: dest, logger: watermill.NopLogger{}, config: Config{AckWhenCannotUnwrap: ack, ForwarderTopic: "fwd"}} // a destination may be called "fwd" too (output side is another Pub/Sub)
 	orig := c17Message("m")
 	topic := vrt.Str("topic")
 	var consumed *message.Message
